@@ -36,7 +36,7 @@ PORT_NAMES = {"backplane": 1, "bp": 1, "enet": 2, "dhrio-a": 2, "dhrio-b": 3, "d
               "dh485-a": 2, "dh485-b": 3}
 SYMBOL_CLASS = 0x6B
 KNOWN_32 = "logical-32bit-format-bits"
-KNOWN_P15 = "port-15-255-no-extended-port"
+KNOWN_P15 = "port-above-14-no-extended-port"
 
 
 # ------------------------------------------------------------------ JSON <-> values
@@ -387,7 +387,7 @@ def has32(reading):
 
 def hasp15(c):
     segs = c.get("segs") or ([c["seg"]] if "seg" in c else [])
-    return any(s[0] == "P" and isinstance(s[1], int) and 15 <= s[1] <= 255 for s in segs)
+    return any(s[0] == "P" and isinstance(s[1], int) and 15 <= s[1] <= 65535 for s in segs)
 
 
 def strip_count(out, counted, pad_length):
@@ -438,7 +438,7 @@ class Judge:
             c2 = json.loads(json.dumps(c))
             segs2 = c2.get("segs") or [c2["seg"]]
             for s in segs2:
-                if s[0] == "P" and isinstance(s[1], int) and 15 <= s[1] <= 255:
+                if s[0] == "P" and isinstance(s[1], int) and 15 <= s[1] <= 65535:
                     s[1] = 1
             r2 = impl_case(c2)
             i2 = intended(c2)
@@ -468,10 +468,9 @@ class Judge:
             size = size_of(reading)
             R.count("intended_size_words", min(size // 2 // 32 * 32, 256))
             fits = size // 2 <= 255 or not counted
-            ports_gt255 = any(x[0] == "P" and x[1] > 255 for x in reading)
             if r[0] == "err":
-                if not fits or ports_gt255:
-                    R.count("oracle", "rejected: does not fit the word count / port above 255")
+                if not fits:
+                    R.count("oracle", "rejected: does not fit the word count")
                     continue
                 what = "in-range path not emitted"
                 self.fail(what, c, f"exception code {r[1]}", "a padded EPATH", self.classify(c, reading, counted, pad_length, None, what))
@@ -618,15 +617,16 @@ def rnd_ip(rng):
 
 
 def rnd_port(rng, mode):
-    """mode 'ok': ports the library can express; 'p15': one of 15..255; 'any'"""
+    """mode 'ok': named ports and 1..14; 'p15': a port above 14 (extended port identifier); 'any'"""
     k = rng.random()
     if mode == "p15":
-        return rng.choice([15, 16, 17, 30, 31, 32, 33, 63, 64, 128, 145, 255, rng.randrange(15, 256)])
+        return rng.choice([15, 16, 17, 30, 31, 32, 33, 63, 64, 128, 145, 255, 256, 257, 300, 4095, 65534, 65535,
+                           rng.randrange(15, 256), rng.randrange(256, 65536)])
     if k < 0.45:
         return rng.choice(list(PORT_NAMES))
     if k < 0.95 or mode == "ok":
         return rng.choice([1, 2, 3, 14, rng.randrange(1, 15)])
-    return rng.choice([0, -1, 256, 300, 65535, 65536, "nope", "BP", "", "Enet"])
+    return rng.choice([0, -1, -16, 65536, 65537, 2 ** 32, "nope", "BP", "", "Enet"])
 
 
 def rnd_link(rng, mode):
@@ -667,7 +667,7 @@ def rnd_logical(rng, allow32, bad=False):
 
 def rnd_segs(rng, flavour):
     """flavour: 'ok16' in range without 32-bit values and without ports >= 15; 'ok32' with 32-bit logical
-    values (no ports >= 15); 'p15' with one port in 15..255 (no 32-bit values); 'bad' anything"""
+    values (no ports >= 15); 'p15' with one port above 14 (no 32-bit values); 'bad' anything"""
     n = rng.choice([0, 1, 2, 2, 3, 4, 6, 9])
     segs = []
     for _ in range(n):
@@ -686,9 +686,12 @@ def rnd_segs(rng, flavour):
     return [seg_j(s) for s in segs]
 
 
-def gen_cases(R, thorough):
+def gen_cases(R, thorough, deep=False):
+    """thorough: exhaustive small domains + 8-10x the random budget (also used when a proof or the
+    correspondence broke); deep (the thorough tier proper): 4x more random cases on top"""
     rng = R.rng
     groups = []
+    X = 4 if deep else 1
 
     # ---- logical segments: format boundaries, exhaustive ranges, random 32-bit
     cs = []
@@ -715,20 +718,28 @@ def gen_cases(R, thorough):
             cs.append({"k": "seg", "padded": False, "seg": ["L", "member_id", v]})
     groups.append(("logical-exhaustive", cs))
     cs = []
-    for _ in range(20000 if thorough else 1500):
+    for _ in range(20000 * X if thorough else 1500):
         cs.append({"k": "seg", "padded": rng.random() < 0.85, "seg": ["L", rng.choice(list(LTYPES)), rng.randrange(65536, 2 ** 32)]})
     groups.append(("logical-random-32bit", cs))
 
     # ---- port / data segments alone
     cs = []
-    for p in list(PORT_NAMES) + list(range(0, 18)) + [31, 32, 33, 63, 64, 127, 128, 145, 255, 256, 65535, -1, "nope", ""]:
+    for p in list(PORT_NAMES) + list(range(0, 18)) + [31, 32, 33, 63, 64, 127, 128, 145, 255, 256, 257, 4095, 65534, 65535, 65536, -1, -16, "nope", ""]:
         for l in [0, 1, 255, 256, -1, "0", "5", "255", "256", "007", "1.2.3.4", "10.10.10.10", "192.168.100.100", "192.168.1.10", "1.2.3", b"", b"\x05",
                   b"\x01\x02", b"\x01\x02\x03"]:
             cs.append({"k": "seg", "padded": True, "seg": seg_j(["P", p, l])})
+    for p in range(0, 65537 + 3, 1 if thorough else 97):      # every port number (thorough) with a slot and an address
+        cs.append({"k": "seg", "padded": True, "seg": ["P", p, p % 256]})
+        if thorough or p % 2:
+            cs.append({"k": "seg", "padded": True, "seg": ["P", p, rng.choice(IP_SAMPLES)]})
+    if deep:       # every port number 0..300 with every slot
+        for p in range(0, 301):
+            for l in range(0, 256):
+                cs.append({"k": "seg", "padded": True, "seg": ["P", p, l]})
     for ip in IP_SAMPLES + IP_BAD:
         cs.append({"k": "seg", "padded": True, "seg": ["P", "enet", ip]})
         cs.append({"k": "ipok", "s": ip})
-    for _ in range(4000 if thorough else 300):
+    for _ in range(4000 * X if thorough else 300):
         ip = rnd_ip(rng)
         cs.append({"k": "seg", "padded": True, "seg": ["P", rng.choice([1, 2, "enet", 14]), ip]})
         if rng.random() < 0.3:
@@ -745,7 +756,7 @@ def gen_cases(R, thorough):
     # ---- whole paths
     for flavour, n in (("ok16", 1500), ("ok32", 400), ("p15", 150), ("bad", 600)):
         cs = []
-        for _ in range(n * (8 if thorough else 1)):
+        for _ in range(n * (8 * X if thorough else 1)):
             cs.append({"k": "epath", "padded": rng.random() < 0.9, "length": rng.random() < 0.8, "pad_length": rng.random() < 0.4,
                        "segs": rnd_segs(rng, flavour)})
         groups.append((f"epath-{flavour}", cs))
@@ -756,7 +767,7 @@ def gen_cases(R, thorough):
                    "segs": [seg_j(["L", "class_id", b"\x6b"]), ["L", "instance_id", inst]]})
         cs.append({"k": "epath", "padded": True, "length": True, "pad_length": False,
                    "segs": [["S", "Program:MainProgram"], seg_j(["L", "class_id", b"\x6b"]), ["L", "instance_id", inst]]})
-    for _ in range(1500 if thorough else 200):
+    for _ in range(1500 * X if thorough else 200):
         route = rnd_route(rng, "ok")
         cs.append({"k": "epath", "padded": True, "length": True, "pad_length": rng.random() < 0.5,
                    "segs": [seg_j(s) for s in route] + [seg_j(["L", "class_id", b"\x02"]), ["L", "instance_id", 1]]})
@@ -777,7 +788,7 @@ def gen_cases(R, thorough):
         for i in vals + [65536, 2 ** 32 - 1, b"\x01", b"\x00\x01", b""]:
             for a in [None, b"", 0, 1, 5, 255, 256, 65535, b"\x01", b"\x00"]:
                 cs.append({"k": "reqpath", "cls": jv(c), "inst": jv(i), "attr": jv(a)})
-    for _ in range(6000 if thorough else 600):
+    for _ in range(6000 * X if thorough else 600):
         a = rng.choice([None, rnd_small(rng), rnd_small(rng), rng.randbytes(rng.choice([1, 2]))])
         if rng.random() < 0.1:
             a = rng.choice([2 ** 32, -1, rng.randbytes(3), rnd_value(rng)])
@@ -802,13 +813,13 @@ def gen_cases(R, thorough):
         cs.append(tag_case({"program": None, "levels": [["abcdefghi", ["300"]]] * nlev}, "absent", False))
     groups.append(("tag-boundaries", cs))
     cs = []
-    for _ in range(16000 if thorough else 2200):
+    for _ in range(16000 * X if thorough else 2200):
         allow32 = rng.random() < 0.12
         ast = rnd_tag_ast(rng, allow32)
         cs.append(tag_case(ast, rnd_inst(rng, allow32 and ast["program"] is None), rng.random() < 0.6))
     groups.append(("tag-grammar", cs))
     cs = []
-    for _ in range(8000 if thorough else 900):
+    for _ in range(8000 * X if thorough else 900):
         ast = rnd_tag_ast(rng, False)
         s = mutate_tag(rng, render_tag(ast))
         cs.append({"k": "tag", "tag": s, "inst": rnd_inst(rng, True), "use": rng.random() < 0.5, "ast": None})
@@ -827,7 +838,7 @@ def gen_cases(R, thorough):
     for z in (["", 4299, "5"], ["", 4300, "5"], ["", 4297, "255"], ["", 4297, "256"]):
         cs.append({"k": "segz", "port": "bp", "z": z})
         cs.append({"k": "segz", "port": 2, "z": z})
-    for _ in range(3000 if thorough else 400):
+    for _ in range(3000 * X if thorough else 400):
         s = "".join(rng.choice("0123456789_+- \t\x1c\x0ba") if rng.random() < 0.4 else rng.choice("0123456789") for _ in range(rng.randrange(0, 7)))
         cs.append({"k": "pyint", "s": s})
     groups.append(("tag-malformed-and-int", cs))
@@ -843,7 +854,7 @@ class _Resp:
         return True
 
 
-def driver_routes(R, J, thorough):
+def driver_routes(R, J, thorough, deep=False):
     """the route / request path bytes CIPDriver hands to its request packets"""
     from pycomm3 import CIPDriver
     from pycomm3.cip.data_types import PortSegment
@@ -859,7 +870,7 @@ def driver_routes(R, J, thorough):
     def rnd_hops(n):
         out = []
         for _ in range(n):
-            p = rng.choice(list(PORT_NAMES) + [1, 2, 3, 14, rng.randrange(1, 15)])
+            p = rng.choice(list(PORT_NAMES) + [1, 2, 3, 14, rng.randrange(1, 15), 15, 16, 32, 255, 256, 65535, rng.randrange(15, 65536)])
             l = rng.choice([str(rng.randrange(256)), rng.choice(IP_SAMPLES), rnd_ip(rng)])
             out.append((p, l))
         return out
@@ -878,40 +889,47 @@ def driver_routes(R, J, thorough):
                    {"bytes": bytes(out), "parsed": got}, reading_toks(reading), f"driver:{what}:reading")
 
     MR = [("L", 0, 2), ("L", 1, 1)]
-    for _ in range(400 if thorough else 60):
+    for _ in range((1600 if deep else 400) if thorough else 60):
         hops = rnd_hops(rng.choice([0, 1, 1, 2, 3]))
         path = "10.20.30.40" + spell(hops, rng.choice([None, "/", "\\", ","]))
-        seen = []
-        drv = CIPDriver(path)
-        drv.send = lambda req: (seen.append(req), _Resp())[1]
-        drv._session = 1
-        # forward open / close: route + message router
-        drv._forward_open()
-        check("forward_open", path, seen[-1].route_path, hop_reading(hops) + MR, False)
-        drv._target_is_connected = True
-        drv._forward_close()
-        check("forward_close", path, seen[-1].route_path, hop_reading(hops) + MR, True)
-        # generic_message: route_path True / str / list; request path of the request itself
-        cls, inst, attr = rnd_small(rng), rnd_small(rng), rng.choice([None, rng.randrange(1, 65536)])
-        kw = {} if attr is None else {"attribute": attr}
-        drv.generic_message(service=1, class_code=cls, instance=inst, connected=False, unconnected_send=True, route_path=True, **kw)
-        check("generic_message:route=True", path, seen[-1].route_path, hop_reading(hops), True)
-        rp = util.request_path(seen[-1].class_code, seen[-1].instance, seen[-1].attribute)
-        check("generic_message:request_path", [cls, inst, attr], rp, [("L", 0, cls), ("L", 1, inst)] + ([("L", 4, attr)] if attr else []), False)
-        h2 = rnd_hops(rng.choice([1, 2, 3]))
-        r2 = spell(h2, "/")[1:]
-        drv.generic_message(service=1, class_code=cls, instance=inst, connected=False, unconnected_send=True, route_path=r2)
-        check("generic_message:route=str", r2, seen[-1].route_path, hop_reading(h2), True)
-        drv.generic_message(service=1, class_code=cls, instance=inst, connected=False, unconnected_send=True,
-                            route_path=[PortSegment(p, l) for p, l in h2])
-        check("generic_message:route=segments", r2, seen[-1].route_path, hop_reading(h2), True)
-        if hops:
-            slot = rng.randrange(0, 256)
-            try:
-                drv.get_module_info(slot)
-            except Exception:
-                pass        # the canned reply is not an identity object; only the request is observed
-            check("get_module_info", [path, slot], seen[-1].route_path, hop_reading(hops[:-1]) + [("P", 1, bytes([slot]))], True)
+        try:
+            _driver_scenario(R, rng, CIPDriver, PortSegment, util, check, hop_reading, rnd_hops, spell, hops, path, MR)
+        except Exception as e:      # an in-range route that the driver refuses to encode
+            R.fail("driver raised while encoding an in-range route", ["driver", path], repr(e)[:200], "paths emitted", "driver:exception")
+
+
+def _driver_scenario(R, rng, CIPDriver, PortSegment, util, check, hop_reading, rnd_hops, spell, hops, path, MR):
+    seen = []
+    drv = CIPDriver(path)
+    drv.send = lambda req: (seen.append(req), _Resp())[1]
+    drv._session = 1
+    # forward open / close: route + message router
+    drv._forward_open()
+    check("forward_open", path, seen[-1].route_path, hop_reading(hops) + MR, False)
+    drv._target_is_connected = True
+    drv._forward_close()
+    check("forward_close", path, seen[-1].route_path, hop_reading(hops) + MR, True)
+    # generic_message: route_path True / str / list; request path of the request itself
+    cls, inst, attr = rnd_small(rng), rnd_small(rng), rng.choice([None, rng.randrange(1, 65536)])
+    kw = {} if attr is None else {"attribute": attr}
+    drv.generic_message(service=1, class_code=cls, instance=inst, connected=False, unconnected_send=True, route_path=True, **kw)
+    check("generic_message:route=True", path, seen[-1].route_path, hop_reading(hops), True)
+    rp = util.request_path(seen[-1].class_code, seen[-1].instance, seen[-1].attribute)
+    check("generic_message:request_path", [cls, inst, attr], rp, [("L", 0, cls), ("L", 1, inst)] + ([("L", 4, attr)] if attr else []), False)
+    h2 = rnd_hops(rng.choice([1, 2, 3]))
+    r2 = spell(h2, "/")[1:]
+    drv.generic_message(service=1, class_code=cls, instance=inst, connected=False, unconnected_send=True, route_path=r2)
+    check("generic_message:route=str", r2, seen[-1].route_path, hop_reading(h2), True)
+    drv.generic_message(service=1, class_code=cls, instance=inst, connected=False, unconnected_send=True,
+                        route_path=[PortSegment(p, l) for p, l in h2])
+    check("generic_message:route=segments", r2, seen[-1].route_path, hop_reading(h2), True)
+    if hops:
+        slot = rng.randrange(0, 256)
+        try:
+            drv.get_module_info(slot)
+        except Exception:
+            pass        # the canned reply is not an identity object; only the request is observed
+        check("get_module_info", [path, slot], seen[-1].route_path, hop_reading(hops[:-1]) + [("P", 1, bytes([slot]))], True)
 
 
 # ------------------------------------------------------------------ entry points
@@ -931,7 +949,7 @@ def run(R, escalate=False, only=None):
     R.rule = ("segments / paths / request_path / tag strings / routes generated from grammars: logical values 0..2^16 "
               + ("exhaustive (5 types, padded; member ids also packed)" if thorough else "(0..1023 exhaustive, stride 61 above, +-40 around 2^16)")
               + ", all format boundaries, random 32-bit; tag ASTs (program scope, 1-6 levels, 0-3 indices across the 8/16/32-bit boundaries, "
-              "names of every length parity, instance ids on/off) + single-character edits; routes with named/numeric ports, slot and IPv4 links of every "
+              "names of every length parity, instance ids on/off) + single-character edits; routes with named ports and port numbers 1..65535 (every number in thorough), slot and IPv4 links of every "
               "length; paths around the 255-word limit; malformed stream (unknown types/ports, out-of-range values, bad IPs, non-ASCII). "
               "non-trivial = distinct case; oracle = strict Spec parser on the implementation's bytes vs the reading computed from the generated input")
     mp = fw.ModelProc("C09")
@@ -942,11 +960,11 @@ def run(R, escalate=False, only=None):
             J.run(cc, "corpus")
         if only is not None:
             return
-        for label, cs in gen_cases(R, thorough):
+        for label, cs in gen_cases(R, thorough, deep=(R.tier == "thorough")):
             R.count("group", label, len(cs))
             for i in range(0, len(cs), 4000):
                 J.run(cs[i:i + 4000], label)
-        driver_routes(R, J, thorough)
+        driver_routes(R, J, thorough, deep=(R.tier == "thorough"))
     finally:
         mp.close()
 
